@@ -129,7 +129,6 @@ func VerifC11CommitFaults() {
 	if cr.crashAt > 0 && !cr.crashed {
 		vAssume(false)
 	}
-	vObserve("faulted-call", cr.at)
 	if !cr.crashed {
 		vCover("no-fault")
 		vAssert(err == nil, "commit-succeeds")
